@@ -65,7 +65,7 @@ def gen_scenarios(prop, tier, seed):
             sc = loop_base(rnd, f"z{j}", action=rnd.choice(["bench", "test"]))
             sc["options"] = {"sample_count": rnd.randint(1, 3), "sample_size": rnd.randint(1, 2), "max_time_ns": 0}
             scs.append(sc)
-    n_rand = {"C03": 40, "C04": 260, "C19": 60}[prop] * (8 if big else 1)
+    n_rand = {"C03": 120, "C04": 600, "C19": 160}[prop] * (5 if big else 1)
     for j in range(n_rand):
         sc = loop_base(rnd, f"t{j}", action="bench" if rnd.random() < 0.9 else "test")
         o = {"sample_count": rnd.choice([0, 1, 2, 3, 5, 8])}
@@ -91,6 +91,12 @@ def gen_scenarios(prop, tier, seed):
         if rnd.random() < 0.3:
             sc["clock"]["overheads"] = [rnd.choice([0, 1, 3]), rnd.choice([0, 2]), rnd.choice([0, 2]), rnd.choice([0, 5])]
             sc["alloc_script"] = {"call": G.rand_ops(rnd, 2)}
+        # a time floor is only ever reached if the (virtual) clock advances: keep the
+        # number of rounds needed for min_time in the hundreds
+        if o.get("min_time_ns", 0) > 0 and not o.get("skip_ext_time", False):
+            if (sc["costs"]["call"] or 0) < 100:
+                sc["costs"]["call"] = rnd.choice([100, 900])
+            sc["clock"]["read_step"] = max(sc["clock"]["read_step"], 1)
         scs.append(sc)
     if prop == "C19":
         # tuning from far below to far above the precision; constant, growing, noisy costs
